@@ -345,8 +345,11 @@ def judge_probes(prop, probes, results, violating):
         unsafe = _unsafe_run(r)
         rows.append(dict(probe=p["name"], entry=p["entry"], role=p["role"], predicted=predict, rustc=observed,
                          ran=r["ran"], outcome=(r["run_out"].splitlines() or [""])[0][:160], error=(r["errors"] or [""])[0][:200]))
-        if p["role"] == "attack" and entry_bad and r["accepted"]:
-            by_entry.setdefault(p["entry"], []).append((p, r))      # the defect, demonstrated
+        if p["role"] == "attack" and entry_bad:
+            # a violating entry need not make *every* attack shape succeed; the accepted ones demonstrate it
+            rows[-1]["predicted"] = "accept (some attack)"
+            if r["accepted"]:
+                by_entry.setdefault(p["entry"], []).append((p, r))
             continue
         if predict != observed:
             if p["role"] in ("attack", "misuse") and r["accepted"] and unsafe:
@@ -637,6 +640,8 @@ def run(prop, tier, seed):
     res["summary"]["source_state"] = dict(repo=cfg["repo"], raw_hash=tables.get("raw_hash"), expanded_hash=tables.get("expanded_hash"))
     if rows:
         res["summary"]["probes"] = rows
+    # one key, so that merging with other engines' summaries (lib/vstatic.py) cannot clobber anything
+    res["summary"] = {"eng_tables": res["summary"]}
     return res
 
 
@@ -648,6 +653,7 @@ if __name__ == "__main__":
     probs = out["problems"]
     out2 = dict(out)
     out2["problems"] = [{k: (v if k != "lines" else f"<{len(v)} lines>") for k, v in p.items()} for p in probs]
-    if "probes" in out2.get("summary", {}):
-        out2["summary"] = dict(out2["summary"], probes=f"<{len(out['summary']['probes'])} rows>")
+    st = out2.get("summary", {}).get("eng_tables", {})
+    if "probes" in st:
+        out2["summary"] = {"eng_tables": dict(st, probes=f"<{len(st['probes'])} rows>")}
     pprint.pprint(out2, width=180)
